@@ -79,6 +79,38 @@ theorem nodup_mid {l1 l2 : List BlockAbs} {k : BlockAbs} (h : ((l1 ++ k :: l2).m
   rw [← List.map_append]
   exact List.mem_map.mpr ⟨w, hw, rfl⟩
 
+/-! ### the first-seen rule across several steps -/
+
+/-- the active chain is unchanged or strictly heavier, and indexed nodes stay indexed unchanged -/
+def Adv (s s' : State) : Prop :=
+  TipAdv s s' ∧ ∀ h n, lookup s.idx h = some n → lookup s'.idx h = some n
+
+theorem adv_refl (s : State) : Adv s s := ⟨Or.inl rfl, fun _ _ h => h⟩
+
+theorem wsum_mono {s s' : State} (hm : ∀ h n, lookup s.idx h = some n → lookup s'.idx h = some n) (h : Hash) :
+    s.wsum h ≤ s'.wsum h ∧ (0 < s.wsum h → s'.wsum h = s.wsum h) := by
+  unfold State.wsum wsumOf
+  cases hl : lookup s.idx h with
+  | none => simp
+  | some n => rw [hm h n hl]; simp
+
+theorem adv_trans {a b c : State} (h1 : Adv a b) (h2 : Adv b c) : Adv a c := by
+  refine ⟨?_, fun h n hl => h2.2 h n (h1.2 h n hl)⟩
+  rcases h1.1 with e1 | l1
+  · rcases h2.1 with e2 | l2
+    · exact Or.inl (e2.trans e1)
+    · right
+      have ht : b.tip = a.tip := by unfold State.tip; rw [e1]
+      have := (wsum_mono h1.2 a.tip).1
+      rw [ht] at l2
+      omega
+  · rcases h2.1 with e2 | l2
+    · right
+      have ht : c.tip = b.tip := by unfold State.tip; rw [e2]
+      have := (wsum_mono h2.2 b.tip).2 (by omega)
+      rw [ht, this]; exact l1
+    · right; omega
+
 /-! ### maybeAcceptBlock -/
 
 theorem mem_contains {l : List Hash} {x : Hash} : l.contains x = false ↔ x ∉ l := by
@@ -91,6 +123,7 @@ theorem store_connect_spec {U D : List BlockAbs} {Q : List Hash} {P : List Block
     (hpre : n.blk.preOk = true)
     (hln : lookup s1.idx n.blk.hash = some n)
     (hlk : ∀ h, h ≠ n.blk.hash → lookup s1.idx h = lookup s.idx h)
+    (hlmono : ∀ h m, lookup s.idx h = some m → lookup s1.idx h = some m)
     (hio : IdxOK U s1.idx)
     (hst : ∀ h, h ≠ n.blk.hash → s1.status h = s.status h)
     (hsd : (s1.status n.blk.hash).data = true)
@@ -99,7 +132,8 @@ theorem store_connect_spec {U D : List BlockAbs} {Q : List Hash} {P : List Block
     Inv U D (if (connectBest s1 n).2.isSome then Q ++ [n.blk.hash] else Q) P (connectBest s1 n).1 ∧
     (connectBest s1 n).1.orphans = s.orphans ∧ (connectBest s1 n).1.evicted = s.evicted ∧
     (∀ h, (s.status h).data = true → ((connectBest s1 n).1.status h).data = true) ∧
-    ((connectBest s1 n).2.isSome = true → ((connectBest s1 n).1.status n.blk.hash).data = true) := by
+    ((connectBest s1 n).2.isSome = true → ((connectBest s1 n).1.status n.blk.hash).data = true) ∧
+    Adv s (connectBest s1 n).1 := by
   have hkPool : n.blk ∈ Pool s (n.blk :: P) := by unfold Pool; simp
   obtain ⟨hkD, hksane, hknd⟩ := hi.wOK n.blk hkPool
   have hkU := hDU n.blk hkD
@@ -151,14 +185,13 @@ theorem store_connect_spec {U D : List BlockAbs} {Q : List Hash} {P : List Block
     | cons t r =>
       have : s.tip = t := by unfold State.tip; rw [hbest]; rfl
       rw [this]; exact hbne t (by rw [hbest]; simp)
+  have hw : s1.wsum s1.tip = s.wsum s.tip := by
+    unfold State.wsum State.tip wsumOf
+    rw [hb1]
+    unfold State.tip at htipne
+    rw [hlk _ htipne]
   have hmax1 : MaxExcept s1 n.blk.hash := by
     intro h m hx hm hg
-    have hw : s1.wsum s1.tip = s.wsum s.tip := by
-      unfold State.wsum State.tip wsumOf
-      rw [hb1]
-      have := hlk (s.best.headD 0) htipne
-      unfold State.tip at htipne
-      rw [hlk _ htipne]
     rw [hw]
     rw [hlk h hx] at hm
     apply hi.max h m hm
@@ -166,10 +199,15 @@ theorem store_connect_spec {U D : List BlockAbs} {Q : List Hash} {P : List Block
     intro h' m' hd' hl' h0' e
     have := hi.c.dClosed h' m' hd' hl' h0'
     rw [e, hknd] at this; cases this
-  obtain ⟨hc2, hmax2, hsc2, hfe2, hki2⟩ := connectBest_spec hc1 hln hsd hnb hpk1 hmax1
-  generalize connectBest s1 n = res at hc2 hmax2 hsc2 hfe2 hki2 ⊢
+  obtain ⟨hc2, hmax2, hsc2, hfe2, hki2, hadv2⟩ := connectBest_spec hc1 hln hsd hnb hpk1 hmax1 (hwf.2.2 n.blk hkU)
+  generalize connectBest s1 n = res at hc2 hmax2 hsc2 hfe2 hki2 hadv2 ⊢
   obtain ⟨s2, r⟩ := res
-  simp only [] at hc2 hmax2 hsc2 hfe2 hki2 ⊢
+  simp only [] at hc2 hmax2 hsc2 hfe2 hki2 hadv2 ⊢
+  have hadv : Adv s s2 := by
+    refine ⟨?_, fun h m hm => by rw [hsc2.1]; exact hlmono h m hm⟩
+    rcases hadv2 with e | l
+    · exact Or.inl (e.trans hb1)
+    · right; rw [← hw]; exact l
   have ho2 : s2.orphans = s.orphans := by rw [hsc2.2.1, ho1]
   have he2 : s2.evicted = s.evicted := by rw [hsc2.2.2.1, he1]
   have hd2 : ∀ h, (s2.status h).data = (s1.status h).data := fun h => (hfe2 h).1
@@ -180,7 +218,7 @@ theorem store_connect_spec {U D : List BlockAbs} {Q : List Hash} {P : List Block
     · rw [e] at hh ⊢; exact hkm hh
     · rw [hst h e]; exact hh
   have hpool2 : Pool s2 P = s.orphans.map (·.1) ++ P := by unfold Pool; rw [ho2]
-  refine ⟨⟨hc2, hmax2, ?_, ?_, ?_, ?_⟩, ho2, he2, ?_, ?_⟩
+  refine ⟨⟨hc2, hmax2, ?_, ?_, ?_, ?_⟩, ho2, he2, ?_, ?_, hadv⟩
   · intro w hw
     rw [hpool2] at hw
     have hw' : w ∈ Pool s (n.blk :: P) := by
@@ -246,7 +284,8 @@ theorem maybeAccept_spec {U D : List BlockAbs} {Q : List Hash} {P : List BlockAb
     Inv U D (if (maybeAccept s k).2.isSome then Q ++ [k.hash] else Q) P (maybeAccept s k).1 ∧
     (maybeAccept s k).1.orphans = s.orphans ∧ (maybeAccept s k).1.evicted = s.evicted ∧
     (∀ h, (s.status h).data = true → ((maybeAccept s k).1.status h).data = true) ∧
-    ((maybeAccept s k).2.isSome = true → ((maybeAccept s k).1.status k.hash).data = true) := by
+    ((maybeAccept s k).2.isSome = true → ((maybeAccept s k).1.status k.hash).data = true) ∧
+    Adv s (maybeAccept s k).1 := by
   have hkPool : k ∈ Pool s (k :: P) := by unfold Pool; simp
   obtain ⟨hkD, hksane, hknd⟩ := hi.wOK k hkPool
   have hkU := hDU k hkD
@@ -278,7 +317,7 @@ theorem maybeAccept_spec {U D : List BlockAbs} {Q : List Hash} {P : List BlockAb
   | true =>
     simp only [if_true]
     refine ⟨by simpa using reject (fun _ => hpk), ?_⟩
-    simp
+    simp [adv_refl]
   | false =>
     simp only [Bool.false_eq_true, if_false]
     cases hhc : (k.hdrOk && k.ctxOk) with
@@ -290,7 +329,7 @@ theorem maybeAccept_spec {U D : List BlockAbs} {Q : List Hash} {P : List BlockAb
         simp only [Bool.and_eq_true] at hpre
         simp [hpre.1.2, hpre.2] at hhc
       refine ⟨by simpa using reject hnp, ?_⟩
-      simp
+      simp [adv_refl]
     | true =>
       simp only [Bool.not_true, Bool.false_eq_true, if_false]
       have hpre : k.preOk = true := by
@@ -304,6 +343,7 @@ theorem maybeAccept_spec {U D : List BlockAbs} {Q : List Hash} {P : List BlockAb
         apply store_connect_spec hwf hDU hi hkp hpk hpre (s1 := s.markData n.blk.hash)
         · exact hlk
         · intro h _; rfl
+        · intro h m hm; exact hm
         · exact hi.c.idx
         · intro h hh; unfold State.markData; rw [status_setSt]; simp [Ne.symm hh]
         · unfold State.markData; rw [status_setSt]; simp
@@ -327,6 +367,9 @@ theorem maybeAccept_spec {U D : List BlockAbs} {Q : List Hash} {P : List BlockAb
         · intro h hh
           show lookup (n :: s.idx) h = lookup s.idx h
           rw [lookup_cons]; simp [Ne.symm hh]
+        · intro h m hm
+          show lookup (n :: s.idx) h = some m
+          exact lookup_cons_of_some hlk hm
         · show IdxOK U (n :: s.idx)
           refine IdxOK.cons hi.c.idx hk0 hlk hkU hlp ?_ ?_
           · rw [← hn]
